@@ -17,6 +17,7 @@ TTry == /\ IsEvent("try")
         /\ ~E.accept => E.grow = "down"
         /\ E.factor_ok /\ E.not_past
         /\ E.stage_ok      \* the trial is one step of the declared scheme from (t0, y0), first stage = f(t0, y0)
+        /\ E.accept_ok     \* accepted iff the embedded error estimate is within the REQUESTED atol + rtol * max(|y0|, |ynew|)
         /\ LET landed == E.accept /\ E.over IN
            /\ last' = [accept |-> E.accept, over |-> E.over, grow |-> E.grow, landed |-> landed]
            /\ IF landed THEN pos' = "before" /\ recorded' = Append(recorded, tgt) /\ tgt' = tgt + 1
